@@ -1320,6 +1320,15 @@ mod convert {
         ) -> ConvertResult<(LineString, DirectoryId, Option<FileInfo>)> {
             let from_name =
                 Self::convert_string(from_file.path_name(), from_dwarf, encoding, line_strings)?;
+            // `LineProgram::add_file` does not accept empty names before DWARF 5
+            // (an empty name terminates the header's file table).
+            if encoding.version <= 4 {
+                if let LineString::String(ref val) = from_name {
+                    if val.is_empty() {
+                        return Err(ConvertError::InvalidFileIndex);
+                    }
+                }
+            }
             let from_dir = from_file.directory_index();
             if from_dir >= dirs.len() as u64 {
                 return Err(ConvertError::InvalidDirectoryIndex);
